@@ -341,7 +341,17 @@ impl tower::Service<Request<Bytes>> for RecorderService {
                 if ctl.mode == 1 {
                     futures::future::pending::<()>().await;
                 }
-                if ctl.delay_ms > 0 {
+                if ctl.mode >= 2 && ctl.delay_ms > 0 {
+                    // the same total time spent in many short waits of (mode) ms each: a handler
+                    // that keeps making progress (and keeps being polled)
+                    let slice = ctl.mode as u64;
+                    let mut left = ctl.delay_ms as u64;
+                    while left > 0 {
+                        let d = left.min(slice);
+                        tokio::time::sleep(Duration::from_millis(d)).await;
+                        left -= d;
+                    }
+                } else if ctl.delay_ms > 0 {
                     tokio::time::sleep(Duration::from_millis(ctl.delay_ms as u64)).await;
                 }
             }
